@@ -21,6 +21,7 @@ import (
 	"fmt"
 	"hash"
 	"io"
+	"math"
 	"math/big"
 	"math/rand"
 	"strconv"
@@ -518,7 +519,17 @@ func OidFromString(s string) (asn1.ObjectIdentifier, error) {
 			return nil, err
 		}
 
+		//encoding/asn1 can write larger arcs, but refuses to read them back
+		if n < 0 || n > math.MaxInt32 {
+			return nil, fmt.Errorf("cert: oid arc '%v' is out of range", number)
+		}
+
 		oid[i] = n
+	}
+
+	//the first two arcs share one encoded value
+	if len(oid) >= 2 && oid[0] <= 2 && oid[0]*40+oid[1] > math.MaxInt32 {
+		return nil, fmt.Errorf("cert: oid arc '%v' is out of range", oid[1])
 	}
 
 	return asn1.ObjectIdentifier(oid), nil
